@@ -130,6 +130,12 @@ def s(self, tree, tree_node_data=None, log_p=None, num_nodes=None, multiplicity=
     sp = spec(prog, "def s(self, alpha, c_const=1000):\n    self._alpha = alpha\n    self.log_alpha = np.log(alpha)\n    self._c_const = np.log(c_const)\n", init)
     for a in ("_alpha", "log_alpha", "_c_const"):
         same(ctx, "T1", "FSCRPDistribution.__init__ stores " + a, init, ex.store(a), sp.store(a), "self." + a)
+    asetter = prog.fn("FSCRPDistribution.alpha@setter")
+    exa = extract(prog, asetter)
+    spa = spec(prog, "def s(self, alpha):\n    self._alpha = alpha\n    self.log_alpha = np.log(alpha)\n", asetter)
+    from ..formula import same_store
+    same_store(ctx, "T1", "alpha setter stores the concentration", asetter, exa, spa, "_alpha")
+    same_store(ctx, "T1", "alpha setter refreshes log_alpha (the CRP term reads it): the density follows the current concentration however the object was built", asetter, exa, spa, "log_alpha")
     # multiplicity = sum over ALL graph nodes (virtual root included) of log(out_degree!)
     m = prog.fn("Tree.multiplicity@getter")
     ex = extract(prog, m)
